@@ -180,6 +180,9 @@ use simple_mermaid::mermaid;
 mod macros;
 mod region_cached;
 mod region_cached_ext;
+#[cfg(folo_verif)]
+#[doc(hidden)]
+pub mod verif;
 
 pub use region_cached::*;
 pub use region_cached_ext::*;
